@@ -101,6 +101,38 @@ def addDead (d : List (Nat × Nat)) (start : Nat) : List (Nat × Nat) :=
     else if start ≤ de ∧ de ≤ start + 1 then d.set j (ds, start + 1)
     else d.insertIdx i (start, start + 1)
 
+/-! ### `bisect_left` as the real algorithm (proved equal to `bisectLeft` on reachable tables: `Extras.lean`) -/
+
+/-- the `while lo < hi` loop over an abstract test `p mid` (= `a[mid] < x`); one unit of fuel per round -/
+def bsearch (p : Nat → Bool) : Nat → Nat → Nat → Nat
+  | 0, lo, _ => lo
+  | fuel + 1, lo, hi =>
+    if lo < hi then
+      (if p ((lo + hi) / 2) then bsearch p fuel ((lo + hi) / 2 + 1) hi
+       else bsearch p fuel lo ((lo + hi) / 2))
+    else lo
+
+/-- `a[mid] < x` for lists of `[start, stop]` pairs (Python compares them lexicographically) -/
+def ltAt (d : List (Nat × Nat)) (c : Nat × Nat) (i : Nat) : Bool :=
+  match d[i]? with
+  | some q => lexLt c q
+  | none => false
+
+/-- `bisect_left(dints, cand)` with the default `lo=0, hi=len(dints)` -/
+def bisectLeftPy (d : List (Nat × Nat)) (c : Nat × Nat) : Nat := bsearch (ltAt d c) d.length 0 d.length
+
+/-- `_add_dead(start)` with the binary search in place of the abstraction (same text as `addDead`) -/
+def addDeadPy (d : List (Nat × Nat)) (start : Nat) : List (Nat × Nat) :=
+  if d.isEmpty then [(start, start + 1)] else
+  let i := bisectLeftPy d (start, start + 1)
+  let j := if i = 0 then d.length - 1 else i - 1
+  match d[j]? with
+  | none => d
+  | some (ds, de) =>
+    if start ≤ ds ∧ ds ≤ start + 1 then d.set j (start, de)
+    else if start ≤ de ∧ de ≤ start + 1 then d.set j (ds, start + 1)
+    else d.insertIdx i (start, start + 1)
+
 /-- `for i, item in enumerate(xs, i0): index_map[item] = i` -/
 def assignIdx : IMap α → List α → Nat → IMap α
   | m, [], _ => m
